@@ -429,6 +429,13 @@ impl Sim {
             }
             props.push(p_u16(P_TA, a));
         }
+        if ver == Ver::V5 && self.r.below(100) < 5 {
+            // contents dimension: a property section whose length prefix changes width when the library adds or strips
+            // the 3-byte Topic Alias (stored copy, automatic mapping)
+            let cur = 3 * props.len();
+            let target = 122 + self.r.usize(10);
+            props.push(Prop { id: 38, val: PVal::Pair(b"k".to_vec(), vec![b'v'; target - cur - 7]) });
+        }
         self.sides[i].counter += 1;
         let key = format!("{}:{}", if i == 0 { "C" } else { "S" }, self.sides[i].counter);
         let id = if qos > 0 {
